@@ -145,7 +145,7 @@ func errorReturnsOnly(f *ssa.Function, b *ssa.BasicBlock) bool {
 	any := false
 	ReturnsFrom(b, func(r *ssa.Return) {
 		any = true
-		if ei >= len(r.Results) || !definitelyNonNil(r.Results[ei], 0) {
+		if ei >= len(r.Results) || !(definitelyNonNil(r.Results[ei], 0) || guardedNonNil(r, r.Results[ei])) {
 			ok = false
 		}
 	})
